@@ -82,6 +82,23 @@ Inductive deferred :=
 | DRestore (a : nat) (v : value)     (* registered by tmp *)
 | DCall (f : value).                 (* registered by defer *)
 
+(* Ghost events (no influence on evaluation): the trace the C21 theorems speak
+   about.  Closure-call frames and `with` instances get fresh ids from one counter. *)
+Inductive gev :=
+| GEnter (f : nat)                    (* closure call f begins *)
+| GExit (f : nat)                     (* closure call f returns *)
+| GReg (f : nat) (d : deferred)       (* frame f registers a tmp restore / a defer callback *)
+| GRun (f : nat) (d : deferred)       (* frame f performs it *)
+| GWAssign (w : nat) (d : deferred)   (* `with` w assigned a variable; d restores it *)
+| GWRestore (w : nat) (d : deferred). (* `with` w restores *)
+
+Record ghost := mkGhost {
+  g_log : list gev;      (* most recent first *)
+  g_frame : nat;         (* id of the running closure frame *)
+  g_wid : nat;           (* id of the `with` whose assignments are being made *)
+  g_next : nat           (* next fresh id *)
+}.
+
 Record state := mkState {
   st_env : env;
   st_store : list value;
@@ -89,6 +106,7 @@ Record state := mkState {
   st_defers : list deferred;    (* current closure frame, most recent first *)
   st_infn : bool;               (* inside a closure call? *)
   st_wrest : list deferred;     (* restores collected by the `with` being set up, most recent first *)
+  st_ghost : ghost;             (* trace only *)
   st_stale : bool               (* faithful mode (follows the Go code): element lvalues keep
                                    the container read when the left-hand side was evaluated
                                    (vars.MakeElement) *)
@@ -103,19 +121,36 @@ Inductive outcome :=
 Definition res := (state * outcome)%type.
 
 Definition set_env (s : state) (e : env) : state :=
-  mkState e (st_store s) (st_out s) (st_defers s) (st_infn s) (st_wrest s) (st_stale s).
+  mkState e (st_store s) (st_out s) (st_defers s) (st_infn s) (st_wrest s) (st_ghost s) (st_stale s).
 Definition set_store (s : state) (m : list value) : state :=
-  mkState (st_env s) m (st_out s) (st_defers s) (st_infn s) (st_wrest s) (st_stale s).
+  mkState (st_env s) m (st_out s) (st_defers s) (st_infn s) (st_wrest s) (st_ghost s) (st_stale s).
 Definition set_out (s : state) (o : list value) : state :=
-  mkState (st_env s) (st_store s) o (st_defers s) (st_infn s) (st_wrest s) (st_stale s).
+  mkState (st_env s) (st_store s) o (st_defers s) (st_infn s) (st_wrest s) (st_ghost s) (st_stale s).
 Definition set_defers (s : state) (d : list deferred) : state :=
-  mkState (st_env s) (st_store s) (st_out s) d (st_infn s) (st_wrest s) (st_stale s).
+  mkState (st_env s) (st_store s) (st_out s) d (st_infn s) (st_wrest s) (st_ghost s) (st_stale s).
 Definition set_frame (s : state) (e : env) (d : list deferred) (f : bool) : state :=
-  mkState e (st_store s) (st_out s) d f (st_wrest s) (st_stale s).
+  mkState e (st_store s) (st_out s) d f (st_wrest s) (st_ghost s) (st_stale s).
 Definition set_wrest (s : state) (w : list deferred) : state :=
-  mkState (st_env s) (st_store s) (st_out s) (st_defers s) (st_infn s) w (st_stale s).
+  mkState (st_env s) (st_store s) (st_out s) (st_defers s) (st_infn s) w (st_ghost s) (st_stale s).
 
-Definition init_state (stale : bool) : state := mkState [] [] [] [] false [] stale.
+Definition set_ghost (s : state) (g : ghost) : state :=
+  mkState (st_env s) (st_store s) (st_out s) (st_defers s) (st_infn s) (st_wrest s) g (st_stale s).
+
+Definition ghost0 : ghost := mkGhost [] 0 1 2.
+Definition init_state (stale : bool) : state := mkState [] [] [] [] false [] ghost0 stale.
+
+Definition emit (s : state) (es : list gev) : state :=
+  let g := st_ghost s in set_ghost s (mkGhost (es ++ g_log g) (g_frame g) (g_wid g) (g_next g)).
+(* a new closure frame: its id is the next fresh id *)
+Definition enter_frame (s : state) : state :=
+  let g := st_ghost s in
+  set_ghost s (mkGhost (GEnter (g_next g) :: g_log g) (g_next g) (g_wid g) (S (g_next g))).
+Definition leave_frame (s : state) (fid caller : nat) : state :=
+  let g := st_ghost s in set_ghost s (mkGhost (GExit fid :: g_log g) caller (g_wid g) (g_next g)).
+Definition enter_with (s : state) : state :=
+  let g := st_ghost s in set_ghost s (mkGhost (g_log g) (g_frame g) (g_next g) (S (g_next g))).
+Definition leave_with (s : state) (outer : nat) : state :=
+  let g := st_ghost s in set_ghost s (mkGhost (g_log g) (g_frame g) outer (g_next g)).
 
 Fixpoint lookup (e : env) (x : N) : option nat :=
   match e with
